@@ -8,7 +8,7 @@ From Dasp Require Import Base.Res Signal.Bus.
 Import ListNotations.
 Open Scope Z_scope.
 
-Inductive zop := ZSend | ZNext (i : Z) | ZPending (i : Z) | ZDrop (i : Z).
+Inductive zop := ZSend | ZNext (i : Z) | ZPending (i : Z) | ZDrop (i : Z) | ZRun (i cnt : Z).
 
 Definition src (n : nat) : Z := 1000 + Z.of_nat n.
 Definition zn (k : nat) : Z := Z.of_nat k.
@@ -25,6 +25,21 @@ Definition pend_all (s : bst) : list Z :=
 Definition snapshot (s : bst) : list Z := zn (pulled s) :: zn (length (buf s)) :: pend_all s.
 
 Definition live (s : bst) (k : nat) : bool := match lookup k (fr s) with Some _ => true | None => false end.
+
+(* cnt consecutive next_frame on key k: first frame, last frame (-1 if none) and the number of
+   positions where a frame is not its predecessor + 1 (the compact report of the harness op `R`) *)
+Fixpoint run_next (cnt : nat) (s : bst) (k : nat) (first last breaks : Z) : res (bst * list Z) :=
+  match cnt with
+  | O => Ok (s, [5; first; last; breaks])
+  | S c =>
+    match next_frame src s k with
+    | Ok (s', x) =>
+      run_next c s' k (if first <? 0 then x else first) x
+               (if (0 <=? last) && negb (x =? last + 1) then breaks + 1 else breaks)
+    | Panic e => Panic e
+    | UB => UB
+    end
+  end.
 
 (* one operation: observation head and next state; an operation on a slot whose output
    is gone cannot be issued through the API (the Output has been consumed by drop): the harness
@@ -47,6 +62,8 @@ Definition zstep (s : bst) (o : zop) : res (bst * list Z) :=
     | Panic c => Panic c
     | UB => UB
     end
+  | ZRun i cnt =>
+    if live s (n i) then run_next (n cnt) s (n i) (-1) (-1) 0 else Ok (s, [9])
   | ZDrop i =>
     if live s (n i)
     then match drop_output s (n i) with Ok s' => Ok (s', [4]) | Panic c => Panic c | UB => UB end
